@@ -167,7 +167,7 @@ Qed.
 Lemma minv_start cfg hist s s' : MInv cfg hist s -> mstep cfg s MStart = Some s' -> MInv cfg hist s'.
 Proof.
   intros [Ie Ih Ic Is] H. simpl in H.
-  destruct (ms_main s) eqn:M; try discriminate. destruct (nth_error (ms_procs s) k) as [[| | |]|] eqn:N; try discriminate.
+  destruct (ms_main s) eqn:M; try discriminate. destruct (nth_error (ms_procs s) k) as [[| | | |]|] eqn:N; try discriminate.
   injection H as <-.
   assert (Hh : mheld (set_nth k MWIdle (ms_procs s)) = mheld (ms_procs s)) by (apply mheld_set_nth_same with (w := MWNew); auto).
   unfold active in *. destruct (m_kind cfg) eqn:K; simpl in *.
@@ -353,7 +353,7 @@ Proof.
         apply (mcore_transfer cfg s); auto; try reflexivity; rewrite En; reflexivity.
   - (* MJoin *)
     destruct (ms_main s) as [| | | | | |k|] eqn:M; try discriminate.
-    destruct (nth_error (ms_procs s) k) as [[| | |]|] eqn:N; try discriminate.
+    destruct (nth_error (ms_procs s) k) as [[| | | |]|] eqn:N; try discriminate.
     destruct I as [Ie Ih Ic Is]. unfold active in Ic, Is. rewrite M in Ic, Is. simpl in Ic, Is.
     destruct (S k <? length (ms_procs s)).
     + injection H as <-. constructor; simpl; auto; unfold active; destruct (m_kind cfg) eqn:K; simpl in *; auto.
@@ -380,18 +380,22 @@ Proof.
            ++ rewrite Hsp. rewrite <- app_assoc. reflexivity.
            ++ rewrite map_app, Hdn, Hres. reflexivity.
   - (* MWTake *)
-    destruct (nth_error (ms_procs s) k) as [[| | |]|] eqn:N; try discriminate.
+    destruct (nth_error (ms_procs s) k) as [[| | | |]|] eqn:N; try discriminate.
     destruct (ms_workq s) as [|[i0 xs|] q] eqn:Q; try discriminate; injection H as <-.
     + apply (minv_move cfg hist s); auto. unfold mentries; simpl. rewrite Q. simpl.
       pose proof (mheld_set_nth (ms_procs s) k MWIdle (MWHold i0 xs) N) as Hh. simpl in Hh. rewrite app_nil_r in Hh. rewrite Hh. simpl. perm.
     + apply (minv_move cfg hist s); auto. unfold mentries; simpl. rewrite Q. simpl.
-      rewrite (mheld_set_nth_same _ k MWIdle MWDead N eq_refl). reflexivity.
+      rewrite (mheld_set_nth_same _ k MWIdle MWExiting N eq_refl). reflexivity.
   - (* MWRes *)
-    destruct (nth_error (ms_procs s) k) as [[| |i0 xs|]|] eqn:N; try discriminate. injection H as <-.
+    destruct (nth_error (ms_procs s) k) as [[| |i0 xs| |]|] eqn:N; try discriminate. injection H as <-.
     apply (minv_move cfg hist s); auto. unfold mentries; simpl. rewrite q_entries_app. simpl.
     pose proof (mheld_set_nth (ms_procs s) k (MWHold i0 xs) MWIdle N) as Hh. simpl in Hh.
     transitivity (q_entries (ms_workq s) ++ (mheld (set_nth k MWIdle (ms_procs s)) ++ [(i0, xs)]) ++ q_entries (ms_resq s) ++ ms_buffer s); [perm|].
     rewrite Hh. reflexivity.
+  - (* MWExit *)
+    destruct (nth_error (ms_procs s) k) as [[| | | |]|] eqn:N; try discriminate. destruct (pipe_room cfg s); try discriminate. injection H as <-.
+    apply (minv_move cfg hist s); auto. unfold mentries; simpl.
+    rewrite (mheld_set_nth_same _ k MWExiting MWDead N eq_refl). reflexivity.
 Qed.
 
 Theorem minv_step cfg hist s e s' : MInv cfg hist s -> mstep cfg s e = Some s' -> MInv cfg hist s'.
@@ -557,7 +561,7 @@ Qed.
 Lemma mlive_start cfg hist s s' : mcfg_ok cfg -> MInv cfg hist s -> MLive cfg s -> mstep cfg s MStart = Some s' -> MLive cfg s'.
 Proof.
   intros [Ow Oc] MI [Ll Ln Lj Lo (cs & m & Hq & Hcs & Hal & Hf) Lr Lb Ld] H. simpl in H.
-  destruct (ms_main s) eqn:M; try discriminate. destruct (nth_error (ms_procs s) k) as [[| | |]|] eqn:N; try discriminate.
+  destruct (ms_main s) eqn:M; try discriminate. destruct (nth_error (ms_procs s) k) as [[| | | |]|] eqn:N; try discriminate.
   injection H as <-. unfold new_ok in Ln. destruct Ln as [Hk Ln]. rewrite set_nth_length.
   assert (Al : alive (set_nth k MWIdle (ms_procs s)) = alive (ms_procs s)).
   { pose proof (alive_set_nth _ k MWNew MWIdle N) as A. unfold alive1 in A; simpl in A. lia. }
@@ -738,7 +742,7 @@ Proof.
     + destruct n; [destruct (m_kind cfg)|]; try exact Logic.I. intros j w Hj. lia.
   - (* MJoin *)
     destruct (ms_main s) as [| | | | | |k|] eqn:M; try discriminate.
-    destruct (nth_error (ms_procs s) k) as [[| | |]|] eqn:N; try discriminate.
+    destruct (nth_error (ms_procs s) k) as [[| | | |]|] eqn:N; try discriminate.
     assert (Len : length (ms_procs s) = m_workers cfg) by (apply mlive_len; auto; rewrite M; discriminate).
     assert (Jd : forall j w, j < S k -> nth_error (ms_procs s) j = Some w -> w = MWDead).
     { intros j w Hj Hw. destruct (Nat.eq_dec j k) as [->|Hne]; [congruence|]. pose proof (ml_joined _ _ L) as Ld. rewrite M in Ld. apply (Ld j w); auto. lia. }
@@ -758,7 +762,7 @@ Proof.
         constructor; unfold new_ok, joined_ok; simpl; auto; try discriminate;
           first [ solve [exists cs, m; simpl in *; rewrite K; auto] | solve [intros K'; congruence] ].
   - (* MWTake *)
-    destruct (nth_error (ms_procs s) k) as [[| | |]|] eqn:N; try discriminate.
+    destruct (nth_error (ms_procs s) k) as [[| | | |]|] eqn:N; try discriminate.
     destruct L as [Ll Ln Lj Lo (cs & m & Hq & Hcs & Hal & Hf) Lr Lb Ld].
     assert (Ll' : forall w', length (set_nth k w' (ms_procs s)) = m_workers cfg \/ m_kind cfg = false /\ set_nth k w' (ms_procs s) = [] /\ (ms_main s = MmIdle \/ ms_main s = MmDone)).
     { intros w'. rewrite set_nth_length. destruct Ll as [?|(_ & P & _)]; [left; assumption | rewrite P in N; destruct k; discriminate]. }
@@ -777,7 +781,7 @@ Proof.
       * exact Lb.
       * apply joined_set_nth with (w := MWIdle); auto. left; discriminate.
     + destruct (nones_head _ _ _ Hcs (eq_sym Hq)) as (-> & m' & -> & ->).
-      pose proof (alive_set_nth _ k MWIdle MWDead N) as Al. unfold alive1 in Al; simpl in Al.
+      pose proof (alive_set_nth _ k MWIdle MWExiting N) as Al. unfold alive1 in Al; simpl in Al.
       constructor; simpl.
       * apply Ll'.
       * apply new_set_nth with (w := MWIdle); auto; discriminate.
@@ -786,9 +790,9 @@ Proof.
       * exists [], m'. simpl. split; [reflexivity|]. split; [constructor|]. split; [lia|]. contradiction.
       * exact Lr.
       * exact Lb.
-      * apply joined_set_nth with (w := MWIdle); auto.
+      * apply joined_set_nth with (w := MWIdle); auto. left; discriminate.
   - (* MWRes *)
-    destruct (nth_error (ms_procs s) k) as [[| |i0 xs|]|] eqn:N; try discriminate. injection H as <-.
+    destruct (nth_error (ms_procs s) k) as [[| |i0 xs| |]|] eqn:N; try discriminate. injection H as <-.
     destruct L as [Ll Ln Lj Lo (cs & m & Hq & Hcs & Hal & Hf) Lr Lb Ld].
     pose proof (alive_set_nth _ k (MWHold i0 xs) MWIdle N) as Al. unfold alive1 in Al; simpl in Al.
     constructor; simpl.
@@ -801,6 +805,20 @@ Proof.
     + apply Forall_app; split; auto; repeat constructor.
     + exact Lb.
     + apply joined_set_nth with (w := MWHold i0 xs); auto. left; discriminate.
+  - (* MWExit: the process exits; it had left its loop already *)
+    destruct (nth_error (ms_procs s) k) as [[| | | |]|] eqn:N; try discriminate. destruct (pipe_room cfg s); try discriminate. injection H as <-.
+    destruct L as [Ll Ln Lj Lo (cs & m & Hq & Hcs & Hal & Hf) Lr Lb Ld].
+    pose proof (alive_set_nth _ k MWExiting MWDead N) as Al. unfold alive1 in Al; simpl in Al.
+    constructor; simpl.
+    + rewrite set_nth_length. destruct Ll as [?|(_ & P & _)]; [left; assumption | rewrite P in N; destruct k; discriminate].
+    + apply new_set_nth with (w := MWExiting); auto; discriminate.
+    + rewrite set_nth_length. exact Lj.
+    + exact Lo.
+    + exists cs, m. split; [exact Hq|]. split; [exact Hcs|]. split; [lia|].
+      intros Hc j w Hj. exfalso. specialize (Hf Hc k MWExiting N). discriminate.
+    + exact Lr.
+    + exact Lb.
+    + apply joined_set_nth with (w := MWExiting); auto.
 Qed.
 
 Lemma mlive_step cfg hist s e s' : mcfg_ok cfg -> MInv cfg hist s -> MLive cfg s -> mstep cfg s e = Some s' -> MLive cfg s'.
@@ -876,6 +894,23 @@ Proof.
     destruct (q_entries (ms_workq s)); [|left; discriminate]. right. intros E. rewrite E in P1. simpl in P1. lia.
 Qed.
 
+(* when the worker processes are being joined every result has been collected: nothing is waiting in the results queue, so
+   the pipe behind it cannot keep a process from exiting *)
+Lemma join_resq_nil cfg hist s k : MInv cfg hist s -> MLive cfg s -> ms_main s = MmJoin k -> ms_resq s = [].
+Proof.
+  intros MI L M.
+  assert (Z : q_entries (ms_resq s) = []).
+  { pose proof (mi_core _ _ _ MI) as C. rewrite M in C. unfold active in C. destruct (m_kind cfg) eqn:K; simpl in C.
+    - destruct (entries_nil_mparts s C) as (_ & _ & Z & _). exact Z.
+    - pose proof (mc_pos _ _ C) as Pos. rewrite M in Pos. destruct Pos as [_ Hle].
+      pose proof (mcore_count _ _ C) as Cn. rewrite K in Cn. simpl in Cn.
+      destruct (mc_pi _ _ C) as (pi & P1 & P2). rewrite K in P2. destruct P2 as (-> & F).
+      assert (Hl : length (mentries s) = length (q_entries (ms_workq s)) + length (mheld (ms_procs s)) + length (q_entries (ms_resq s)) + length (ms_buffer s)).
+      { unfold mentries. rewrite !app_length. lia. }
+      destruct (q_entries (ms_resq s)); [reflexivity | simpl in Hl; lia]. }
+  pose proof (ml_resq _ _ L) as Lr. destruct (ms_resq s) as [|[i xs|] q]; [reflexivity | discriminate | inversion Lr; subst; contradiction].
+Qed.
+
 Theorem fmap_deadlock_free cfg hist s : mcfg_ok cfg -> MAll cfg hist s -> ms_main s <> MmDone -> exists e, menabled cfg s e.
 Proof.
   intros [Ow Oc] [MI L X] Hnd.
@@ -941,12 +976,14 @@ Proof.
       apply (mw_progress cfg s k MWIdle N); auto; try discriminate. rewrite Hq. intros E. apply app_eq_nil in E. destruct E as [_ E].
       destruct m; [lia | discriminate].
     + exists (MWRes k). unfold menabled. simpl. rewrite N. discriminate.
+    + exists (MWExit k). unfold menabled. simpl. rewrite N. unfold pipe_room. rewrite (join_resq_nil cfg hist s k MI L M).
+      destruct (m_pipe cfg); discriminate.
     + exists MJoin. unfold menabled. simpl. rewrite M, N. destruct (S k <? length (ms_procs s)); [|destruct (m_kind cfg)]; discriminate.
 Qed.
 
 (* ================================================================== termination measure *)
 Definition mact_pot (cfg : mcfg) (a : list Z * nat) : nat := 14 * length (fst a) + 5 * m_workers cfg + 7.
-Definition mw_pot (w : mwpc) : nat := match w with MWNew => 3 | MWIdle => 2 | MWHold _ _ => 13 | MWDead => 0 end.
+Definition mw_pot (w : mwpc) : nat := match w with MWNew => 3 | MWIdle => 2 | MWHold _ _ => 13 | MWExiting => 1 | MWDead => 0 end.
 Definition mwsum (ps : list mwpc) : nat := list_sum (map mw_pot ps).
 Definition mm_pot (cfg : mcfg) (s : mstate) : nat :=
   let W := m_workers cfg in let B := 2 * W + 5 in let X := if m_kind cfg then 0 else B in
@@ -1039,7 +1076,7 @@ Proof. intros Ok Hh s H. apply (mall_measure cfg hist s e s'); auto. apply mall_
 
 (* a scheduler of that kind exists *)
 Definition mall_events (n : nat) : list mevent :=
-  [MStart; MNext; MPut; MTry; MGet; MEnd; MNone; MJoin; MEmpty] ++ flat_map (fun k => [MWTake k; MWRes k]) (seq 0 n).
+  [MStart; MNext; MPut; MTry; MGet; MEnd; MNone; MJoin; MEmpty] ++ flat_map (fun k => [MWTake k; MWRes k; MWExit k]) (seq 0 n).
 Definition mpick_first (cfg : mcfg) (s : mstate) : mevent :=
   match find (fun e => match mstep cfg s e with Some _ => true | None => false end) (mall_events (length (ms_procs s))) with
   | Some e => e | None => MStart end.
